@@ -32,6 +32,7 @@ Record assertion := {
 
 Inductive call :=
 | B64 (dst_len : Z) (src : list Z)              (* base64_url_encode(&mut [0; dst_len], src) *)
+| B64F (dst src : list Z)                       (* base64_url_encode(&mut dst, src), dst NOT zeroed *)
 | Extract (n : Z) (sb eb : bound) (data : list Z)   (* extract_from_bytes::<n>(data, (sb, eb)) *)
 | Flags (f : Z)                                 (* the three validate_*_bit functions, in order *)
 | FlagOne (which : Z) (f : Z)                   (* one of them: 0 = user present, 1 = user verified,
@@ -43,7 +44,12 @@ Inductive call :=
                                                 (* WebauthnVerifierContract::verify; decoded = oracle:
                                                    WebAuthnSigData::from_xdr succeeded (fields in a) *)
 | EdLib (payload key sig : list Z) (sigok : bool) (expect : option bool)   (* ed25519::verify *)
-| EdEx (payload key sig : list Z) (sigok : bool) (expect : option bool).   (* Ed25519VerifierContract *)
+| EdEx (payload key sig : list Z) (sigok : bool) (expect : option bool)    (* Ed25519VerifierContract, reached
+                                                   through the generic interface verify(Bytes, Val, Val): key and sig
+                                                   are byte strings of ANY length *)
+| BadArg (which shape : Z).                     (* an example verifier contract (0 = Ed25519, 1 = WebAuthn) called
+                                                   through the generic interface with an argument that is not a byte
+                                                   string at all (shape = 100 * position + kind of value) *)
 
 Inductive out := OUnit | OBool (b : bool) | OBytes (l : list Z) | OOpt (o : option (list Z)).
 Definition outcome := res out.
@@ -69,6 +75,7 @@ Definition lift {A} (f : A -> out) (r : res A) : outcome := do x <- r; Ok (f x).
 Definition run_call (c : cfg) (k : call) : outcome :=
   match k with
   | B64 dst_len src => lift OBytes (base64_url_encode (repeat 0 (Z.to_nat dst_len)) src)
+  | B64F dst src => lift OBytes (base64_url_encode dst src)
   | Extract n sb eb data => lift OOpt (extract_from_bytes n data sb eb)
   | Flags f =>
       lift (fun _ => OUnit)
@@ -89,6 +96,7 @@ Definition run_call (c : cfg) (k : call) : outcome :=
                     (if decoded then Some (a_sig a, a_ad a, a_cd a) else None)
                     (a_parsed a) (a_sigok a))
   | EdLib _ _ _ sigok _ | EdEx _ _ _ sigok _ => lift OBool (ed_decide sigok)
+  | BadArg _ _ => Fail        (* the conversion of the argument to KeyData / SigData / Bytes traps *)
   end.
 
 Definition model_obs (c : cfg) (k : call) : obs := (k, run_call c k).
@@ -215,6 +223,16 @@ Definition mon_call (k : call) (o : outcome) : bool :=
         | _ => false
         end
       else negb (is_ok o)                                   (* cannot fit: must not return *)
+  | B64F dst src =>
+      bytes_ok src &&
+      let n := enc_len (len src) in
+      if n <=? len dst then
+        (* the encoding WRITTEN over the front of the buffer (whatever it held), the rest as it was *)
+        match o with
+        | Ok (OBytes r) => eqb_bytes r (rfc4648_url_nopad src ++ skipn (Z.to_nat n) dst)
+        | _ => false
+        end
+      else negb (is_ok o)
   | Extract n sb eb data =>
       bound_u32 sb && bound_u32 eb && (len data <=? MAXU32) &&
       let s := range_start sb in
@@ -264,6 +282,10 @@ Definition mon_call (k : call) (o : outcome) : bool :=
   | EdLib _ key sig sigok e | EdEx _ key sig sigok e =>
       ed_sizes_ok key sig sigok
       && verdict_shape o && Bool.eqb (is_accept o) sigok && expect_ok e o
+  | BadArg _ _ =>
+      (* something that is not a byte string is not a key, a signature or a payload: never accepted
+         (and, as everywhere, never answered with false) *)
+      match o with Fail => true | _ => false end
   end.
 
 (* the oracles are functions of the printed bytes: two calls with the same (key, signature,
@@ -332,6 +354,7 @@ Definition wa_expect_wf (a : assertion) (pre : bool) : bool :=
 Definition wf_call (k : call) : bool :=
   match k with
   | B64 dst_len src => (0 <=? dst_len) && bytes_ok src
+  | B64F dst src => bytes_ok src
   | Extract n sb eb data => bound_u32 sb && bound_u32 eb && (len data <=? MAXU32)
   | Flags f => is_byte f
   | FlagOne _ f => is_byte f
@@ -345,6 +368,7 @@ Definition wf_call (k : call) : bool :=
       && wa_expect_wf a (decoded && (65 <=? len kd))
   | EdLib _ key sig sigok e | EdEx _ key sig sigok e =>
       ed_sizes_ok key sig sigok && expect_agrees e sigok
+  | BadArg _ _ => true
   end.
 
 Fixpoint wf_calls (seen : list call) (cs : list call) : bool :=
